@@ -129,6 +129,10 @@ class Engine:
     def oblige(self, name, st, goal, kind, top=False, props=(), node=None, clause=None):
         full = "%s::%s" % (self.func.qual.replace("pybads.", "", 1), name)
         self.obligations.append(Obligation(full, st.pc, goal, kind, self.func.qual, top, props, self.where(node) if node is not None else None, clause))
+        f = getattr(self, "_forced", None)
+        if f:
+            self.obligations[-1].forced = ("unknown", f)
+            self._forced = None
 
     def push_exit(self, e):
         self.exit_stack[-1].append(e)
@@ -1000,7 +1004,13 @@ class Engine:
             self.spec = old
 
     def eval_clause(self, clause, st, pre=None, polarity=1, lets=None):
-        v = self.ev_spec(clause.ast, st, pre, polarity, lets)
+        try:
+            v = self.ev_spec(clause.ast, st, pre, polarity, lets)
+        except Undecided as ex:
+            if polarity > 0:
+                # the goal cannot be expressed at this program point: the obligation is undecided (never "held")
+                self._forced = "clause %s not expressible here: %s" % (clause.name, str(ex)[:300])
+            return z3.BoolVal(True)
         return self.truth(v)
 
 
